@@ -166,25 +166,35 @@ fn run_one(target: &str, corpus: &Path, artifacts: &Path, runs: u64, seed: u64, 
 }
 
 fn crash_message(target: &str, stderr: &str) -> String {
-    // the panic message of the oracle ("Cxx violated: ...") or of the code under test
+    // the panic message of the oracle ("Cxx violated: [sig:..] ...") or of the code under test
+    let mut loc = String::new();
     let mut msg = String::new();
     let mut take = 0;
     for l in stderr.lines() {
-        if l.contains("panicked at") {
-            msg = l.to_string();
+        if let Some(p) = l.find("panicked at ") {
+            // "thread '<unnamed>' (1234) panicked at path/file.rs:24:9:" - the message follows on the next lines
+            loc = l[p + "panicked at ".len()..].trim_end_matches(':').to_string();
+            msg.clear();
             take = 3;
             continue;
         }
         if take > 0 && !l.starts_with("note:") && !l.starts_with("==") {
-            msg.push(' ');
+            if !msg.is_empty() {
+                msg.push(' ');
+            }
             msg.push_str(l.trim());
             take -= 1;
         }
     }
-    if msg.is_empty() {
+    if loc.is_empty() && msg.is_empty() {
         msg = truncate(&crate::engine::truncate_tail(stderr, 600), 600);
     }
-    format!("[sig:fuzz-{target}:{}] libFuzzer target {target} crashed: {}", panic_signature(&msg), truncate(&msg, 1200))
+    // an oracle failure carries its own signature; a panic of the code under test is keyed by file and text
+    let sig = match msg.find("[sig:").and_then(|i| msg[i + 5..].find(']').map(|j| msg[i + 5..i + 5 + j].to_string())) {
+        Some(inner) => inner,
+        None => panic_signature(&format!("{msg} @ {loc}")),
+    };
+    format!("[sig:fuzz-{target}:{sig}] libFuzzer target {target} crashed at {loc}: {}", truncate(&msg, 1200))
 }
 
 fn case_of(target: &str, input: &[u8]) -> Value {
@@ -197,7 +207,7 @@ pub fn campaign(ctx: &Ctx, plan: FuzzPlan) {
         return;
     }
     if std::env::var("XV_REPO").map(|r| r != "/repo").unwrap_or(false) || std::env::var_os("XV_NO_FUZZ").is_some() {
-        ctx.add_extra("fuzz", json!({"target": plan.target, "skipped": "scratch-repository run or XV_NO_FUZZ"}));
+        ctx.add_extra(&format!("fuzz_{}", plan.target), json!({"target": plan.target, "skipped": "scratch-repository run or XV_NO_FUZZ"}));
         return;
     }
     let t0 = std::time::Instant::now();
@@ -295,7 +305,7 @@ pub fn campaign(ctx: &Ctx, plan: FuzzPlan) {
         e.1 += corpus;
     }
     ctx.add_extra(
-        "fuzz",
+        &format!("fuzz_{}", plan.target),
         json!({
             "engine": "libFuzzer via cargo-fuzz (debug assertions and overflow checks on)",
             "target": plan.target,
